@@ -4,6 +4,7 @@ CONSTANTS
   MaxT = 3
   MaxC = 1
   Mode = "AsIs"
+  QueueOrder = "perproducer"
   Configs <- AsIsConfigs
 INVARIANT TypeOK
 INVARIANT SerialOutcome
